@@ -151,7 +151,20 @@ def isolate(code, S, V, env, prop):
     return None
 
 
+def _flatten(code):
+    out = []
+    for i in code:
+        if isinstance(i, list):
+            out += _flatten(i)
+        else:
+            out.append(i)
+    return out
+
+
 def shrink_prefix(code, S, V, env, prop):
+    """shortest failing prefix of the (flattened) top-level sequence; the last instruction of it is described with
+    the reference stack it is applied to"""
+    code = _flatten(code)
     for n in range(1, len(code) + 1):
         try:
             fs, _, _ = findings_for(code[:n], S, V, env)
@@ -159,8 +172,15 @@ def shrink_prefix(code, S, V, env, prop):
             continue
         fs = [f for f in fs if f[0] == prop]
         if fs:
-            St = R.typecheck(code[:n - 1], S) if n > 1 else tuple(S)
-            return dict(code=code[:n], S=tuple(S), V=tuple(V), finding=fs[0], ins=R.freeze(code[n - 1]), St=St)
+            St, Vt = tuple(S), tuple(V)
+            if n > 1:
+                try:
+                    before = R.run(code[:n - 1], S, V, env)
+                    if before[0] == 'ok':
+                        St, Vt = before[1], before[2]
+                except R.RefError:
+                    pass
+            return dict(code=code[:n], S=tuple(S), V=tuple(V), finding=fs[0], ins=R.freeze(code[n - 1]), St=St, Vt=Vt)
     return None
 
 
@@ -187,7 +207,7 @@ def report(case, f, mode='stack'):
                         case=jc, id=case['id'])
     sh = shrink_prefix(code, S, V, env, prop) if mode == 'stack' else None
     if sh:
-        where = 'in-context ' + E.describe(sh['ins'], sh['St'])
+        where = 'in-context ' + E.describe(sh['ins'], sh['St']) + ' [' + vtraits(sh['ins'], sh['St'], sh['Vt']) + ']'
         return dict(prop=prop, oid=f'{prop}::{sh["finding"][1]}', wclass=f'{where} -> {sh["finding"][3]}',
                     message=f'{where}: {sh["finding"][2]}', case=jcase(sh['code'], S, V, env, prop, sh['finding'][1]), id=case['id'])
     where = f'{mode} ' + ';'.join(_top_prim(i) for i in code)
